@@ -14,7 +14,7 @@ SCHEMES = ["explicit_euler", "generalized_rush_larsen", "hybrid_rush_larsen"]
 RULE = """Models from modelgen.gen_model with unused parameters, unused intermediates, chains of unused intermediates, states that no
 expression reads, 1-5 states, 0-5 parameters, 0-8 intermediates, in random dependency shapes and random line order.  For each model
 and back end (numpy always, C every 2nd model, jax every 6th) two modules are generated with identical options except remove_unused
-(False / True), containing rhs, monitor_values, missing_values (for 1-3 requested names), explicit_euler, generalized_rush_larsen and
+(False / True), containing rhs, monitor_values, missing_values (requesting up to 2 intermediates, a state and a - preferably unused - parameter), explicit_euler, generalized_rush_larsen and
 hybrid_rush_larsen (first state stiff).  One case = one (model, back end, function, point): the two modules must have identical
 state / parameter / monitor index tables and init arrays, every function of the remove_unused module must run (no NameError) and
 return an array of the same length with the same entries position by position (rtol 1e-12).  A differing result that is a permutation
@@ -52,7 +52,8 @@ def check(case):
     used = ref.used_names()
     has_unused = any(n not in used for n in list(ref.params) + ref.inter_names + list(ref.states))
     req = [k for k in (c.get("missing") or {}) if k in ref.assigns or k in ref.states or k in ref.params]
-    req = {k: i for i, k in enumerate(req)} or {k: i for i, k in enumerate((ref.inter_names[-2:] + ref.state_names[:1]) or ref.state_names[:1])}
+    unused_p = [p for p in ref.params if p not in used] or list(ref.params)
+    req = {k: i for i, k in enumerate(req)} or {k: i for i, k in enumerate(ref.inter_names[-2:] + ref.state_names[:1] + unused_p[:1])}
     stiff = [ref.state_names[0]]
     only = c.get("only")
     for bk in c.get("backends", ["numpy"]):
@@ -74,13 +75,29 @@ def check(case):
                 cm.note(res, f"skipped:{bk}:{e.stage}-fails-without-remove_unused")
                 continue
         with a:
-            try:
-                b = be.build(ode, bk, schemes, remove_unused=True, **kw)
-            except be.Stage as e:
-                res["evals"] += 1
-                k = f"generation-raises:{cm.exc_site(e.exc)}" if e.stage == "codegen" else f"{e.stage}-raises:{cm.msg_key(e.exc)}"
-                add(k, f"module with remove_unused=True cannot be built ({e.stage}) although remove_unused=False can", {"ode": text, "points": []}, "module", cm.exc_name(e.exc), str(e) + " " + e.detail[:300])
+            b = None
+            for attempt in (0, 1):
+                try:
+                    b = be.build(ode, bk, schemes, remove_unused=True, **kw)
+                    break
+                except be.Stage as e:
+                    res["evals"] += 1
+                    allnames = set(ref.states) | set(ref.params) | set(ref.assigns)
+                    k = f"generation-raises:{cm.exc_site(e.exc)}" if e.stage == "codegen" else f"{e.stage}-error:{cm.compile_key(e.exc, allnames) if e.stage == 'compile' else cm.msg_key(e.exc)}"
+                    if attempt == 0:
+                        add(k, f"module with remove_unused=True cannot be built ({e.stage}) although remove_unused=False can", {"ode": text, "points": []}, "module", cm.exc_name(e.exc), str(e) + " " + e.detail[:300])
+                    if "missing_values" not in kw:
+                        break
+                    kw = {k2: v for k2, v in kw.items() if k2 != "missing_values"}  # retry without missing_values so that the other functions are still compared
+            if b is None:
                 continue
+            if "missing_values" not in kw:
+                a.close()
+                try:
+                    a = be.build(ode, bk, schemes, **kw)
+                except be.Stage:
+                    b.close()
+                    continue
             with b:
                 res["evals"] += 1
                 inp0 = {"ode": text, "points": []}
@@ -97,7 +114,7 @@ def check(case):
                             add(f"init-changed:{fn}", f"{fn} differs with remove_unused", inp0, cm.tolist(va), cm.tolist(vb))
                 except Exception as e:  # noqa: BLE001
                     add(f"init-raises:{cm.exc_name(e)}", "init function raises with remove_unused", inp0, None, cm.short(e))
-                fns = [("rhs", None, a.n_states), ("monitor_values", None, a.n_mon), ("missing_values", None, len(req))] + [(s, 0.05, a.n_states) for s in schemes]
+                fns = [("rhs", None, a.n_states), ("monitor_values", None, a.n_mon)] + ([("missing_values", None, len(req))] if "missing_values" in kw else []) + [(s, 0.05, a.n_states) for s in schemes]
                 broken = set()
                 for pt in c["points"]:
                     pt = cm.restrict_point(pt, ref)
